@@ -38,6 +38,7 @@ func init() {
 		c.RunSkeletons(SkelOpts{Rules: []string{"K-HEADER", "G-DATA/pkgname", "G-DATA/imports", "K-IMPORTS", "G-FORMAT", "G-MOCK/write-what"}, Formatters: tmpl.Formatters})
 		// goimports yields the same import set only if the block moq emits is already exact
 		gen.CheckKinds(c.Run, c.Prog)
+		kindsTable(c)
 		flagFlow(c, "fmt")
 		// what reaches stdout or the -out file is exactly what Mock wrote (no re-printing, no extra bytes)
 		if cl := cli(c); cl != nil {
